@@ -120,7 +120,8 @@ class FormulaParser:
             for index, token in enumerate(tokens):
                 new_tokens.append(token)
 
-                if type(token.tvalue) == str:
+                # (A text literal may contain anything, including ':'.)
+                if type(token.tvalue) == str and token.tsubtype != 'text':
 
                     # example -> :OFFSET( or simply :A10
                     if token.tvalue.startswith(':'):
